@@ -73,6 +73,12 @@ func V[T any](id int, x T) T {
 	return x
 }
 
+// W is a one-argument effectful call: logs w<x> and returns a per-run unique value.
+func W(x int) int {
+	Log("w" + strconv.Itoa(x))
+	return x*1000 + Occ()
+}
+
 // X logs "expression id evaluated" without its value (values whose rendering is not
 // stable across runs: channels, maps, pointers).
 func X[T any](id int, x T) T {
